@@ -231,7 +231,7 @@ def r04_3(ctx) -> None:
                   f"{kind} JSON reader subscripts {lost} unconditionally but the writer stores {'it' if len(lost) == 1 else 'them'} only under a condition: "
                   f"a message whose {(lost or ['?'])[0]} is empty serialises to a document the library itself refuses", f"{sorted(demanded & want)} written on every path",
                   construct=f"{kind} JSON required members")
-        ctx.count("R04.16", len(demanded & want), 4, f"members the {kind} JSON reader demands on every path")
+        ctx.count("R04.16", len(demanded & want), 1, f"members the {kind} JSON reader demands on every path")
     # optional members are written when (not unless) their value is present
     nst = 0
     for h in (f("represent_general_json"), f("represent_flattened_json"), rep_common):
@@ -598,7 +598,45 @@ def r04_14(ctx) -> None:
     ctx.count("R04.14", stores, 3, "stores into header positions (the rule's positive examples; removals found: %d)" % n)
 
 
+def r04_18(ctx) -> None:
+    """R04.18  "every plaintext ... decrypts to itself": an empty JWE Ciphertext (AEAD of the empty plaintext) and an empty JWE Encrypted Key (dir,
+    direct key agreement) are well-formed parts.  In the JWE readers the only refusals that depend on those parts are the failure of their
+    base64url decoding and the absence of the member; a test of the part's truthiness / emptiness / length that leads to a raise refuses what the
+    library itself produces."""
+    eng = ctx.eng
+    n = 0
+    J = eng.prog.mod("rfc7516.json")
+    fns = [eng.prog.func("rfc7516.compact:extract_compact")] + [fn for fn in J.functions if fn.name.lstrip("_").startswith("extract")]
+    for fn in fns:
+        cfg = cfg_of(fn)
+        # compact: the locals that hold the 2nd and 4th segment of the split
+        seg_names = {"ciphertext_segment", "ek_segment"}
+        for node in fn_nodes(fn):
+            if isinstance(node, ast.Assign) and isinstance(node.targets[0], ast.Tuple) and len(node.targets[0].elts) == 5 and all(isinstance(x, ast.Name) for x in node.targets[0].elts):
+                seg_names |= {node.targets[0].elts[1].id, node.targets[0].elts[3].id}
+        for t in cfg.nodes:
+            if t.kind != "test":
+                continue
+            texts = resolve_all(eng, fn, t.ast) + [norm(t.ast)]
+            names = {y.id for y in ast.walk(t.ast) if isinstance(y, ast.Name)}
+            about = [m for m in ("ciphertext", "encrypted_key") if any(f"['{m}']" in x or f".get('{m}'" in x for x in texts)] + sorted(names & seg_names)
+            if not about:
+                continue
+            n += 1
+            if isinstance(t.ast, ast.Compare) and len(t.ast.ops) == 1 and isinstance(t.ast.ops[0], (ast.In, ast.NotIn)) and const_value(t.ast.left) in ("ciphertext", "encrypted_key"):
+                continue  # presence of the member is about the shape of the serialization
+            if isinstance(t.ast, ast.Call) and isinstance(t.ast.func, ast.Name) and t.ast.func.id == "isinstance":
+                continue  # a type test refuses no octet string
+            for lab in ("true", "false"):
+                succ = succ_by_label(cfg, t, lab)
+                if succ and not can_reach_exit(cfg, succ):
+                    ctx.fail("R04.18", fn, t.ast, f"{fn.short} refuses a token on a test of its {about[0]} part (`{norm(t.ast)[:60]}`): the empty octet sequence is a valid "
+                             "ciphertext (empty plaintext under an AEAD) / encrypted key (dir, direct agreement) and no longer decrypts", construct=f"{about[0]}-dependent refusal in {fn.short}")
+    ctx.ok("R04.18", "JWE readers :: refusals that depend on the ciphertext / encrypted key", f"{n} tests about those parts, none of them leads to a refusal")
+
+
 def run(ctx) -> None:
+    ctx.guard(r04_18)
     from .common import member_crossing
     ctx.guard(member_crossing, "R04.17", "jwe")  # named members are filled from the value of the same name (generic crossing rule, rules/common.py)
     from .common import forwarding_discipline
